@@ -25,6 +25,7 @@ func rulesC09(c *Ctx, r *Report) {
 	rulesLocalClamp(c, r)
 	rulesTraceFollowsFill(c, r) // the traceback moves as the fill read, and Local's start offsets are those of its first cell: the steps returned have the score returned
 	rulesFillAllCells(c, r)     // every cell of the table is computed: no early stop of the fill on a "good enough" score
+	rulesTraceStart(c, r)       // Local's walk starts at a best cell of the whole table (the optimum is the maximum over all cells)
 	rulesStepsReversed(c, r)    // the steps come out in order and their buffer holds the longest path (no panic on long alignments)
 	rulesPureAlign(c, r)        // the score lookups read the matrix as it is now: no state kept between calls, no writes
 	p := c.pkg("align")
